@@ -171,7 +171,7 @@ class LoopTranslator:
                 if fn:
                     return f"({fn} {self.coerce(ls, lt, 'F')} {self.coerce(rs, rt, 'F')})", "F"
             if {lt, rt} <= {"Int", "Val"}:
-                fn = {ast.Add: "Val.add", ast.Sub: "Val.sub"}.get(op)
+                fn = {ast.Add: "Val.add", ast.Sub: "Val.sub", ast.Mult: "Val.mul"}.get(op)
                 if fn:
                     return f"({fn} {self.coerce(ls, lt, 'Val')} {self.coerce(rs, rt, 'Val')})", "Val"
                 if op is ast.Div and rt == "Int":
@@ -233,6 +233,15 @@ class LoopTranslator:
                 if t != "P":
                     raise TranslateError(f"{self.fname}: indexing a non-pair call")
                 return (f"({s}).1", "Val") if e.slice.value == 0 else (f"({s}).2", "Int")
+            if isinstance(e.value, ast.Subscript) and not isinstance(e.slice, (ast.Slice, ast.Tuple)):
+                # a[c][r]: an element of one array of a list of arrays
+                inner, it = self.expr(cx, e.value)
+                if it != "V(Val)":
+                    raise TranslateError(f"{self.fname}: nested subscript of {it}")
+                i_s, i_t = self.expr(cx, e.slice)
+                if i_t != "Int":
+                    raise TranslateError(f"{self.fname}: non-integer index")
+                return f"({inner}.getD (normI ({inner}.length : Int) {i_s}).toNat Val.nan)", "Val"
             if not isinstance(e.value, ast.Name):
                 raise TranslateError(f"{self.fname}: subscript of a non-name")
             v = cx.env.get(e.value.id)
@@ -296,6 +305,11 @@ class LoopTranslator:
                 b, bt = self.expr(cx, e.args[1])
                 if at == "Int" and bt == "Int":
                     return f"(min {a} {b})", "Int"
+            if isinstance(f, ast.Name) and f.id == "len" and len(e.args) == 1 and isinstance(e.args[0], ast.Subscript):
+                inner, it = self.expr(cx, e.args[0])
+                if it == "V(Val)":
+                    return f"({inner}.length : Int)", "Int"
+                raise TranslateError(f"{self.fname}: len() of {it}")
             if isinstance(f, ast.Name) and f.id == "len" and len(e.args) == 1 and isinstance(e.args[0], ast.Name):
                 v = cx.env.get(e.args[0].id)
                 if v is not None and v.ty in ("LA(Val)", "V(Val)"):
@@ -1321,6 +1335,55 @@ def first_non_null_dispatch(tree: ast.AST) -> str:
             "  | _ => first_non_null_int k arr_len arr\n\n")
 
 
+def is_null_dispatch(tree: ast.AST) -> str:
+    """`@overload(is_null)`: the isinstance chain on the scalar's numba type becomes a match on the kind.  The loops call the
+    hand-written `isNull`; `LoopBridge/IsNull.lean` proves the two equal on well-formed cells, so a change of the
+    overload (another sentinel, another type class) fails a named obligation"""
+    fn = find_func(tree, "jit_is_null")
+    consts = module_int_constants(tree)
+    chain = [n for n in fn.body if isinstance(n, ast.If)]
+    branches = []
+    for node in chain:
+        while True:
+            inner = [n for n in node.body if isinstance(n, ast.FunctionDef)]
+            rets = [n for n in node.body if isinstance(n, ast.Return)]
+            if len(inner) != 1 or len(rets) != 1 or ast.unparse(rets[0].value) != inner[0].name:
+                raise TranslateError("jit_is_null: branch shape changed")
+            body = [b for b in inner[0].body if not (isinstance(b, ast.Expr) and isinstance(b.value, ast.Constant))]
+            if len(body) != 1 or not isinstance(body[0], ast.Return):
+                raise TranslateError("jit_is_null: implementation is not a single return")
+            branches.append((ast.unparse(node.test), ast.unparse(body[0].value)))
+            if len(node.orelse) == 1 and isinstance(node.orelse[0], ast.If):
+                node = node.orelse[0]
+            else:
+                if node.orelse:
+                    raise TranslateError("jit_is_null: unexpected else branch")
+                break
+    want_tests = ["isinstance(x, nb.types.Float) or isinstance(x, float)", "isinstance(x, nb.types.Integer)",
+                  "isinstance(x, nb.types.Boolean)", "isinstance(x, (nb.types.NPDatetime, nb.types.NPTimedelta))"]
+    if [t for t, _ in branches] != want_tests:
+        raise TranslateError(f"jit_is_null: dispatch chain changed: {[t for t, _ in branches]}")
+
+    def impl(src: str) -> str:
+        if src == "np.isnan(x)":
+            return "Val.isNan x"
+        if src == "False":
+            return "false"
+        if src == "np.isnat(x)":
+            # NaT is the int64 minimum of the integer view the kernels get
+            return "Val.eqF x (Val.num (-9223372036854775808))"
+        m = ast.parse(src, mode="eval").body
+        if isinstance(m, ast.Compare) and len(m.ops) == 1 and isinstance(m.ops[0], ast.Eq) and ast.unparse(m.left) == "x" \
+                and isinstance(m.comparators[0], ast.Name) and m.comparators[0].id in consts:
+            return f"Val.eqF x (Val.num ({consts[m.comparators[0].id]}))"
+        raise TranslateError(f"jit_is_null: implementation `{src}` not understood")
+    f_, i_, b_, t_ = [impl(src) for _, src in branches]
+    return ("/-- `@overload(is_null)`: float -> the first implementation, every integer type (signed or unsigned; datetime and\n"
+            "timedelta arrive as int64 views, for which the fourth implementation `isnat` is the same test) -> the second, bool -> the third -/\n"
+            "def is_null_src (k : Kind) (x : Val) : Bool :=\n"
+            f"  match k with\n  | .f => {f_}\n  | .b => {b_}\n  | .i 64 => ({i_}) && ({t_})\n  | _ => {i_}\n\n")
+
+
 # functions already translated in this run: python name -> (lean name, parameter types, result types)
 TRANSLATED: dict = {}
 
@@ -1371,6 +1434,7 @@ LOOPS = {
                                    {"codes": "A2(Int)", "code_weights": "A(Int)", "code_tracker": "A(Int)"}),
     "combine_factorizations_dict": ("fact", "_combine_factorizations",
                                     {"codes": "A2(Int)", "code_weights": "A(Int)", "code_tracker": "D(Int)"}),
+    "nb_dot": ("util", "_nb_dot", {"a": "LA(Val)", "b": "A(Val)", "out": "A(Val)"}),
     "group_nearby_members": ("numba", "group_nearby_members",
                              {"group_key": "A(Int)", "values": "A(Val)", "max_diff": "Val", "n_groups": "Int"}),
     "build_group_sorted_indexer": ("core", "_build_group_sorted_indexer_numba",
@@ -1399,6 +1463,12 @@ def generate_loops(trees: dict[str, ast.AST], only=None) -> tuple[str, dict[str,
     out = [PRELUDE]
     errors = {}
     TRANSLATED.clear()
+    if not only:
+        try:
+            out.append(is_null_dispatch(trees["util"]))
+        except TranslateError as e:
+            errors["is_null_src"] = str(e)
+            out.append(f"-- TRANSLATE-ERROR is_null_src: {e}\n\n")
     for lean_name, spec in LOOPS.items():
         mod, pyname, params = spec[:3]
         float_ty = spec[3] if len(spec) > 3 else "Val"
